@@ -140,6 +140,11 @@ type Engine struct {
 	memFaultSeen int
 	memFaultIdx  int // index inside the batch where it hit (-1 = not yet)
 
+	dirTarget  string // directed schedules: the task instance the race is about
+	dirHeldIns string
+	hold       func(g *gate) bool     // directed schedules: gates that are not released for now
+	replyHold  func(desc string) bool // directed schedules: park the caller once more after the store applied the call
+
 	hung        bool
 	foreignDiff string
 	panicked    []string
@@ -323,6 +328,15 @@ func (e *Engine) release(g *gate) {
 // step releases one random parked gate; pref (optional) restricts the choice when it matches something.
 func (e *Engine) step(pref func(g *gate) bool) bool {
 	gs := e.liveGates()
+	if e.hold != nil {
+		var free []*gate
+		for _, g := range gs {
+			if !e.hold(g) {
+				free = append(free, g)
+			}
+		}
+		gs = free
+	}
 	if len(gs) == 0 {
 		return false
 	}
@@ -414,6 +428,10 @@ func (j *jstore) callOp(desc string, opf func() Sx, write bool, do func() (Sx, e
 	e.mu.Unlock()
 	if fault == "lost" {
 		return errInjected
+	}
+	if e.replyHold != nil && e.replyHold(desc) {
+		// the store has applied the call; the caller has not seen the reply yet
+		e.park("reply", "reply:"+desc)
 	}
 	return err
 }
